@@ -130,6 +130,11 @@ OnCpoll(m, e) ==
       b05 == V(m.fam = "try_join" /\ m.errSeen, "C05", <<"child polled after a failure was seen", c>>)
       b06 == V(m.fam = "race" /\ m.okSeen, "C06", <<"child polled after a child resolved", c>>)
       b07 == V(m.fam = "race_ok" /\ m.okSeen, "C07", <<"child polled after a child succeeded", c>>)
+             \* "a child that has failed is never polled again"
+             \cup V(m.fam = "race_ok" /\ known /\ ch.ans = "done" /\ ~ch.ok, "C07", <<"a failed child was polled again", c>>)
+      \* C11 / C12: a member that was removed (C12: or has ended) is never polled afterwards
+      b1112 == V(m.fam \in {"future_group", "stream_group"} /\ known /\ (~ch.live \/ ch.ans = "done"),
+                 IF m.fam = "future_group" THEN "C11" ELSE "C12", <<"a member was polled after it ended / was removed", c>>)
       \* C10: strictly sequential evaluation
       b10 == V(m.fam = "chain" /\ \E d \in Kids(m) : d < c /\ ~Done(m, d),
                "C10", <<"input polled before an earlier input ended", c>>)
@@ -144,7 +149,7 @@ OnCpoll(m, e) ==
       nch == [ch EXCEPT !.polls = @ + 1, !.lwid = e.wid, !.wids = @ \cup {e.wid},
                         !.firedL = FALSE, !.firedA = openHit]
   IN Arm(AddBad([m EXCEPT !.ch = (c :> nch) @@ m.ch],
-         b03 \cup b16 \cup b05 \cup b06 \cup b07 \cup b10 \cup b19), arm)
+         b03 \cup b16 \cup b05 \cup b06 \cup b07 \cup b1112 \cup b10 \cup b19), arm)
 
 \* --- cret --------------------------------------------------------------
 OnCret(m, e) ==
